@@ -56,6 +56,7 @@ def cases(seed, tier):
         # the generic plan may itself monitor sig1; SupplementalData would monitor it twice
         ci = generic.main_index(base)
         base["script"][ci]["plan"] = [n for n in _strip_monitor(base["script"][ci]["plan"])]
+    retarget = generic.second_suspender(base, ID, seed)
     dry, dv, n = generic.dry_run(base)
     yield base
     ci = generic.main_index(base)
@@ -67,7 +68,7 @@ def cases(seed, tier):
         inj = gen.gen_injections(rng, n, kinds=kinds, k=rng.choice([1, 1, 2, 3]), slack=2)
         for i in inj:
             if i["do"] == "trip":
-                i["args"] = generic.trip_args(rng)
+                i["args"] = retarget(generic.trip_args(rng))
         c["script"][ci]["inject"] = inj
         decs = []
         for _ in range(5):
@@ -76,7 +77,7 @@ def cases(seed, tier):
                 d["inject"] = gen.gen_injections(rng, n, kinds=kinds, k=1, slack=2)
                 for i in d["inject"]:
                     if i["do"] == "trip":
-                        i["args"] = generic.trip_args(rng)
+                        i["args"] = retarget(generic.trip_args(rng))
             decs.append(d)
         c["script"][ci]["decisions"] = decs
         c["script"][ci]["final"] = "resume"
